@@ -12,7 +12,7 @@ import (
 func init() {
 	register("C03", Meta{
 		Explanation: "Structural necessary conditions of 'applied exactly once, in nonce order': (nonce-writer) LastObservedEventNonceKey is written only by the tally-apply function and InitGenesis; in the former the stored value is the event's nonce and the write is cut off from the entry by 'event nonce == last observed + 1'; (tally-order) every call of the apply function from end-block code is guarded by 'nonce == GetLastObservedEventNonce()+1'; (accepted-first) on the applying path Accepted=true is persisted and the observed nonce is bumped before the handler is invoked, and the apply call is guarded by '!record.Accepted'; (single-apply) the handler is invoked only from the process function, which is called only from the apply function, which is called only from the end-block tally, each from a single call site; the handler's self-calls pass a freshly built SendToHubEvent and no self-call is reachable from the SendToHubEvent case (bounded recursion); (contiguity) = C02.one-vote.",
-		NotDecided: []string{"several records of one block reaching quorum in adversarial orders beyond what the guards imply", "behaviour of conflicting claims over histories (only: at most one apply per nonce follows from the nonce guard)"},
+		NotDecided:  []string{"several records of one block reaching quorum in adversarial orders beyond what the guards imply", "behaviour of conflicting claims over histories (only: at most one apply per nonce follows from the nonce guard)"},
 		Assumptions: commonAssumptions,
 	}, checkC03)
 }
